@@ -255,8 +255,9 @@ impl<'buf, 'fds> Variant<'fds, 'buf> {
     ) -> UnmarshalResult<Self> {
         ctx.align_to(sig.get_alignment())?;
 
+        let (buf, offset) = ctx.buf_and_offset();
         let val_bytes =
-            crate::wire::validate_raw::validate_marshalled(ctx.byteorder, 0, ctx.remainder(), &sig)
+            crate::wire::validate_raw::validate_marshalled(ctx.byteorder, offset, buf, &sig)
                 .map_err(|e| e.1)?;
 
         Ok(Variant {
